@@ -370,6 +370,7 @@ def check(ctx: Ctx):
     from ..rules import collections as _col_r12, support as _sup_r12
 
     _sup_r12.compose(ctx, _col_r12.check_fresh_derivations, keep=("FRESH",), site_filter=lambda s: "EmulsionTimeCourse.__init__" in s)
+    _sup_r12.check_arrays_not_filtered(ctx, "droplets.image_analysis.threshold_otsu")
     ctx.expect("NONETEST", 3)
     ctx.expect("UNBOUND", 1)
     from ..rules import purity as _pur
